@@ -506,26 +506,37 @@ func execRace(in Ev) []Ev {
 		if mode == "shared-template" {
 			what, text = "tmpl", "Hello {{A}}{{#b}} [{{{C}}}]{{/b}}{{^d}} none{{/d}}!"
 		}
-		s, err := newC19subject(what, text, gor)
+		// the sequential results come from a separate fresh instance
+		fs, err := newC19subject(what, text, gor)
 		if err != nil {
 			panic(err)
 		}
 		seq := make([]string, gor+1)
 		for p := 1; p <= gor; p++ {
-			seq[p] = s.eval(p, off)
+			seq[p] = fs.eval(p, off)
 		}
-		for p := 1; p <= gor; p++ {
-			wg.Add(1)
-			go func(p int) {
-				defer wg.Done()
-				for i := 0; i < iters; i++ {
-					if r := s.eval(p, off); r != seq[p] {
-						mu.Lock()
-						mismatch++
-						mu.Unlock()
+		// many cold starts: each shared instance is used for the first time by the concurrent evaluations themselves
+		// (state that is initialised lazily on first use must be safe then, too)
+		reps := 24
+		for rep := 0; rep < reps; rep++ {
+			s, _ := newC19subject(what, text, gor)
+			start := make(chan struct{})
+			for p := 1; p <= gor; p++ {
+				wg.Add(1)
+				go func(p int) {
+					defer wg.Done()
+					<-start
+					for i := 0; i < iters/reps+1; i++ {
+						if r := s.eval(p, off); r != seq[p] {
+							mu.Lock()
+							mismatch++
+							mu.Unlock()
+						}
 					}
-				}
-			}(p)
+				}(p)
+			}
+			close(start)
+			wg.Wait()
 		}
 	default: // every goroutine owns its own tokenizer, calculator and template
 		inputs := []string{"a <= b <> c << 2", "1.5e3 + 'it''s' /* c */ >= x", "NOT a IS NULL"}
